@@ -582,7 +582,8 @@ func runDynamic(r *mon.Report, tier string, idx, ord int, rng *rand.Rand) {
 	if d.nontrivial {
 		r.Sig("dyn|%s|pools=%d", strings.Join(common.SortedKeys(d.sig), ","), len(s.Pools))
 	}
-	if r.WantSample() && d.nontrivial {
+	if wantSample(r, "dynamic") && d.nontrivial {
+		sampled["dynamic"] = true
 		sum, members, _ := d.usage()
 		final := map[string]any{}
 		for p, rl := range sum {
